@@ -593,21 +593,21 @@ impl Database {
                 if !file_manager.table_exists(schema_name, table_name) {
                     continue;
                 }
-                let storage_arc = file_manager.table_data(schema_name, table_name)?;
-                let storage = storage_arc.read();
-                let root_page = TableFileHeader::from_bytes(storage.page(0)?)?.root_page();
-                if root_page == 0 || root_page >= storage.page_count() {
-                    continue;
-                }
-                let last_key = BTreeReader::new(&storage, root_page)?
-                    .last_key()
-                    .wrap_err_with(|| {
-                        format!(
-                            "failed to read the last row key of table '{}.{}'",
-                            schema_name, table_name
-                        )
-                    })?;
-                if let Some(Ok(bytes)) = last_key.map(<[u8; 8]>::try_from) {
+                // A table file that cannot be read (damaged or incomplete after a crash)
+                // must not keep the whole database from opening: statements on that table
+                // report the damage themselves, and it contributes no row id here.
+                let last_key = (|| -> Result<Option<Vec<u8>>> {
+                    let storage_arc = file_manager.table_data(schema_name, table_name)?;
+                    let storage = storage_arc.read();
+                    let root_page = TableFileHeader::from_bytes(storage.page(0)?)?.root_page();
+                    if root_page == 0 || root_page >= storage.page_count() {
+                        return Ok(None);
+                    }
+                    let key = BTreeReader::new(&storage, root_page)?.last_key()?;
+                    Ok(key.map(|k| k.to_vec()))
+                })()
+                .unwrap_or(None);
+                if let Some(Ok(bytes)) = last_key.map(|k| <[u8; 8]>::try_from(k.as_slice())) {
                     max_row_id = max_row_id.max(u64::from_be_bytes(bytes));
                 }
             }
